@@ -52,6 +52,7 @@ func propC06(w *World, r *Report) {
 	RunSkipMove(w, r)
 	RunKeepPerLookup(w, r, gt)
 	RunSkipExit(w, r, newBoundsRun(w), gt)
+	RunLookaheadSkip(w, r, gt)
 	r.Floor("skipexit", 15)
 	r.Floor("emptyrecord", 2)
 	r.Floor("covgate", 15)
